@@ -138,7 +138,22 @@ pub fn mod_switch_2n(n: usize, res: &mut [i64], lwe: &LWE<&[u8]>, rot_dir: LookU
 
     let log2n: usize = usize::BITS as usize - (n - 1).leading_zeros() as usize + 1;
 
+    // Number of bits of the result: log2n - 1, because we map to [-N/2, N/2) instead of [0, N)
+    let log2n_res: usize = log2n - 1;
+
+    // Number of most significant limbs that are aggregated before rounding: enough to hold GUARD_BITS more bits
+    // than the result (if the ciphertext has them), because rounding on a single extra bit is biased by +1/4
+    // per coefficient. This is a single limb when base2k >= log2n_res + GUARD_BITS.
+    const GUARD_BITS: usize = 8;
+    let size: usize = (log2n_res + GUARD_BITS).div_ceil(base2k).min(lwe.size());
+
     res.copy_from_slice(lwe.data().at(0, 0));
+
+    (1..size).for_each(|i| {
+        izip!(lwe.data().at(0, i).iter(), res.iter_mut()).for_each(|(x, y)| {
+            *y = (*y << base2k) + x;
+        });
+    });
 
     match rot_dir {
         LookUpTableRotationDirection::Left => {
@@ -147,26 +162,17 @@ pub fn mod_switch_2n(n: usize, res: &mut [i64], lwe: &LWE<&[u8]>, rot_dir: LookU
         LookUpTableRotationDirection::Right => {}
     }
 
-    if base2k > log2n {
-        let diff: usize = base2k - (log2n - 1); // additional -1 because we map to [-N/2, N/2) instead of [0, N)
+    let k: usize = size * base2k;
+
+    if k > log2n_res {
+        let diff: usize = k - log2n_res;
         res.iter_mut().for_each(|x| {
             *x = div_round_by_pow2(x, diff);
         })
     } else {
-        let rem: usize = base2k - (log2n % base2k);
-        let size: usize = log2n.div_ceil(base2k);
-        (1..size).for_each(|i| {
-            if i == size - 1 && rem != base2k {
-                let k_rem: usize = base2k - rem;
-                izip!(lwe.data().at(0, i).iter(), res.iter_mut()).for_each(|(x, y)| {
-                    *y = (*y << k_rem) + (x >> rem);
-                });
-            } else {
-                izip!(lwe.data().at(0, i).iter(), res.iter_mut()).for_each(|(x, y)| {
-                    *y = (*y << base2k) + x;
-                });
-            }
-        })
+        // The ciphertext has less precision than the result
+        let diff: usize = log2n_res - k;
+        res.iter_mut().for_each(|x| *x <<= diff)
     }
 }
 
